@@ -25,6 +25,8 @@ type TokCfg struct {
 	// MissingClients leaves out that many one-directional clients of the full mesh (x has no client of y
 	// although y has one of x): sends, relay hops, acknowledgements over that edge fail or are refused.
 	MissingClients int
+	// RelayProb is the share of sends routed through a relay chain (0 = the default third).
+	RelayProb float64
 }
 
 type heldNft struct {
@@ -116,7 +118,11 @@ func (s *TokSim) route(src *vnet.Chain) (dst *vnet.Chain, relay string) {
 	for dst == src {
 		dst = s.pick()
 	}
-	if len(cs) >= 3 && s.Rng.Intn(3) == 0 {
+	rp := s.Cfg.RelayProb
+	if rp == 0 {
+		rp = 1.0 / 3
+	}
+	if len(cs) >= 3 && s.Rng.Float64() < rp {
 		var rs []string
 		for _, r := range cs {
 			if r != src && r != dst {
